@@ -7,6 +7,11 @@
 //                                    split the event sequence (stream open, stanzas with content, stream close) is compared with the
 //                                    one-read delivery.  exit 1 = differences, all of them at read boundaries inside a multi-byte
 //                                    UTF-8 sequence or directly before EF BB BF;  3 = a difference elsewhere;  0 = none
+//   replay_split big                 one stream with a single 100 KB roster result, delivered in reads of 4096 bytes, compared with the one-read
+//                                    delivery (a buffer that is dropped or truncated while an element is incomplete shows here).  exit 1 = differs
+//   replay_split reconnect           ONE XmppSocket: a first plain-TCP connection receives a complete stanza and a fragment of the next one and is
+//                                    reset by the peer; the same XmppSocket connects again and receives a valid stream, which is compared with
+//                                    the delivery of that stream on a fresh XmppSocket.  exit 1 = the new stream is delivered differently
 //   replay_split model               differential check of units/C03/utf8_model.h against the real QString::fromUtf8
 //                                    exit 0 = agree everywhere, 2 = the model is wrong (tool error, not a finding)
 #include <QCoreApplication>
@@ -113,6 +118,70 @@ static Delivery deliver(const QList<QByteArray> &parts)
     return d;
 }
 
+struct Recorder {
+    Delivery d;
+    void attach(XmppSocket &xs)
+    {
+        QObject::connect(&xs, &XmppSocket::streamReceived, [this](const QDomElement &el) {
+            d.events << QStringLiteral("OPEN <%1 xmlns='%2' from='%3' id='%4'>").arg(el.tagName(), el.namespaceURI(), el.attribute("from"), el.attribute("id"));
+        });
+        QObject::connect(&xs, &XmppSocket::stanzaReceived, [this](const QDomElement &el) {
+            if (el.isNull()) {
+                d.pings++;
+                return;
+            }
+            QString s;
+            QTextStream ts(&s);
+            el.save(ts, -1);
+            d.events << QStringLiteral("STANZA ") + s.left(300);
+        });
+        QObject::connect(&xs, &XmppSocket::streamClosed, [this]() { d.events << QStringLiteral("CLOSE"); });
+    }
+};
+
+// connect `client` to the loopback server and hand back the server side of the connection
+static QTcpSocket *connectPair(QSslSocket &client)
+{
+    client.connectToHost(QHostAddress(QHostAddress::LocalHost), g_server->serverPort());
+    QElapsedTimer t;
+    t.start();
+    QTcpSocket *peer = nullptr;
+    while ((!peer || client.state() != QAbstractSocket::ConnectedState) && t.elapsed() < 5000) {
+        pump(5);
+        if (!peer) {
+            peer = g_server->nextPendingConnection();
+        }
+    }
+    if (!peer || client.state() != QAbstractSocket::ConnectedState) {
+        fprintf(stderr, "loopback connection failed\n");
+        exit(2);
+    }
+    peer->setSocketOption(QAbstractSocket::LowDelayOption, 1);
+    return peer;
+}
+
+static void sendInReads(QTcpSocket *peer, const QList<QByteArray> &parts, qint64 &seen, qint64 &sent)
+{
+    QElapsedTimer t;
+    for (const QByteArray &p : parts) {
+        if (p.isEmpty()) {
+            continue;
+        }
+        peer->write(p);
+        peer->flush();
+        sent += p.size();
+        t.restart();
+        while (seen < sent && t.elapsed() < 5000) {
+            pump(1);
+        }
+        if (seen < sent) {
+            fprintf(stderr, "client did not receive the bytes\n");
+            exit(2);
+        }
+    }
+    pump(1);
+}
+
 static const char *HEADER = "<?xml version='1.0'?><stream:stream xmlns='jabber:client' xmlns:stream='http://etherx.jabber.org/streams' from='im.example.com' id='s1' version='1.0'>";
 
 static int insideMultibyte(const QByteArray &whole, int cut)   // well-formed sequence of `whole` that straddles `cut`; 2 = EF BB BF starts at cut
@@ -181,6 +250,70 @@ static int modeSplit2()
     return (bad_mb || bad_bom) ? 1 : 0;
 }
 
+static int compare(const char *what, const Delivery &ref, const Delivery &d)
+{
+    bool same = ref.events == d.events;
+    printf("%s: %d events, reference %d events: %s\n", what, int(d.events.size()), int(ref.events.size()), same ? "same" : "DIFFERENT");
+    if (!same) {
+        int k = 0;
+        while (k < d.events.size() && k < ref.events.size() && d.events[k] == ref.events[k]) k++;
+        printf("   first difference at event %d: got %s, reference %s\n", k, k < d.events.size() ? qPrintable(show(d.events[k]).left(160)) : "(nothing)",
+               k < ref.events.size() ? qPrintable(show(ref.events[k]).left(160)) : "(nothing)");
+    }
+    return same ? 0 : 1;
+}
+
+static int modeBig()
+{
+    QByteArray s(HEADER);
+    s += "<presence from='a@im.example.com/x'/><iq type='result' id='roster1'><query xmlns='jabber:iq:roster'>";
+    for (int i = 0; s.size() < 100 * 1024; i++) {
+        s += "<item jid='contact" + QByteArray::number(i) + "@im.example.com' name='Contact " + QByteArray::number(i) + "' subscription='both'><group>Friends</group></item>";
+    }
+    s += "</query></iq><message from='b@im.example.com/y'><body>after the roster</body></message></stream:stream>";
+    Delivery ref = deliver({ s });
+    QList<QByteArray> parts;
+    for (int off = 0; off < s.size(); off += 4096) parts << s.mid(off, 4096);
+    Delivery d = deliver(parts);
+    printf("stream of %d bytes with one %d KB element; %d reads of 4096 bytes\n", int(s.size()), int(s.size() / 1024), int(parts.size()));
+    int rc = compare("reads of 4096 bytes", ref, d);
+    printf("%s\n", rc ? "POST=VIOLATED (REPRODUCED)" : "NOT-REPRODUCED");
+    return rc;
+}
+
+static int modeReconnect()
+{
+    QByteArray first = QByteArray(HEADER) + "<message from='a@im.example.com/x'><body>one</body></message><message from='a@im.example.com/x'><body>cut off he";
+    QByteArray second = QByteArray(HEADER) + "<stream:features><bind xmlns='urn:ietf:params:xml:ns:xmpp-bind'/></stream:features><iq type='result' id='b1'/>"
+                                              "<message from='b@im.example.com/y'><body>two</body></message></stream:stream>";
+    Delivery ref = deliver({ second });
+    QSslSocket client;
+    qint64 seen = 0, sent = 0;
+    QObject::connect(&client, &QIODevice::readyRead, [&]() { seen += client.bytesAvailable(); });
+    XmppSocket xs(nullptr);
+    Recorder rec;
+    rec.attach(xs);
+    xs.setSocket(&client);
+    QTcpSocket *peer = connectPair(client);
+    sendInReads(peer, { first }, seen, sent);
+    peer->abort();   // the peer resets the connection; XmppSocket::disconnectFromHost() is not involved
+    peer->deleteLater();
+    QElapsedTimer t;
+    t.start();
+    while (client.state() != QAbstractSocket::UnconnectedState && t.elapsed() < 5000) pump(5);
+    printf("first connection: %d events delivered, then reset by the peer inside an element (socket state %d)\n", int(rec.d.events.size()), int(client.state()));
+    rec.d = Delivery();
+    peer = connectPair(client);
+    sendInReads(peer, { second }, seen, sent);
+    peer->close();
+    peer->deleteLater();
+    client.abort();
+    pump(0);
+    int rc = compare("second connection of the same XmppSocket", ref, rec.d);
+    printf("%s\n", rc ? "POST=VIOLATED (REPRODUCED)" : "NOT-REPRODUCED");
+    return rc;
+}
+
 static bool modelAgrees(const QByteArray &in, long &checked)
 {
     cbytes cb;
@@ -246,6 +379,12 @@ int main(int argc, char **argv)
     g_server = &server;
     if (mode == "split2") {
         return modeSplit2();
+    }
+    if (mode == "big") {
+        return modeBig();
+    }
+    if (mode == "reconnect") {
+        return modeReconnect();
     }
     QByteArray a = QByteArray::fromHex(argc > 2 ? argv[2] : "c3");
     QByteArray b = QByteArray::fromHex(argc > 3 ? argv[3] : "a9");
